@@ -32,7 +32,7 @@ type hashmap struct {
 	table   map[int][]int // hash -> indices into entries (concrete keys only)
 	entries []*entry
 	length  int
-	nsym    int // live entries with symbolic keys
+	nsym    int                     // live entries with symbolic keys
 	perm    func([]*entry) []*entry // optional iteration order chosen by the harness
 }
 
